@@ -462,3 +462,47 @@ func writeEdwardsScalarMul(repoRoot, srcRoot string, check bool) int {
 	}
 	return stale
 }
+
+// ---------------- pairing entry points and final exponentiation (C05, partial) ----------------
+
+var reGTType = regexp.MustCompile(`type GT = fptower\.(E\d+)`)
+
+func pairingPkgs(srcRoot string) []string {
+	var out []string
+	fs, _ := filepath.Glob(filepath.Join(srcRoot, "ecc", "*", "pairing.go"))
+	for _, f := range fs {
+		out = append(out, strings.TrimPrefix(filepath.Dir(f), srcRoot+"/"))
+	}
+	return out
+}
+
+func writePairing(repoRoot, srcRoot, verifRoot string, check bool) int {
+	wr, err := os.ReadFile(filepath.Join(verifRoot, "contracts", "pairing", "wrappers.go.tmpl"))
+	if err != nil {
+		return 0
+	}
+	stale := 0
+	for _, rel := range pairingPkgs(srcRoot) {
+		src, _ := os.ReadFile(filepath.Join(srcRoot, rel, "pairing.go"))
+		pkg := ""
+		fmt.Sscanf(after(string(src), "\npackage "), "%s", &pkg)
+		gt := ""
+		for _, f := range []string{"pairing.go", filepath.Base(rel) + ".go"} {
+			b, _ := os.ReadFile(filepath.Join(srcRoot, rel, f))
+			if m := reGTType.FindSubmatch(b); m != nil {
+				gt = string(m[1])
+			}
+		}
+		if gt == "" {
+			continue
+		}
+		head, err := os.ReadFile(filepath.Join(verifRoot, "contracts", "pairing", "finalexp_"+filepath.Base(rel)+".go"))
+		txt := string(head)
+		if err != nil {
+			txt = "//go:build verif\n\n// Contracts of the pairing entry points of this curve (comment-only; installed by /verif/gcv gen-contracts).\n// The final exponentiation of this curve is not under contract.\n\npackage " + pkg + "\n"
+		}
+		txt = strings.TrimRight(txt, "\n") + "\n" + strings.ReplaceAll(string(wr), "GTTYPE", gt)
+		stale += installText(filepath.Join(repoRoot, rel, "zz_verif_contracts_pairing.go"), txt, check)
+	}
+	return stale
+}
